@@ -60,6 +60,20 @@ def gen_case(machine, seed, tier, index):
     return rs, case
 
 
+def _jd(o):
+    """JSON fallback for numpy scalars that slipped into a result."""
+    import numpy as np
+    if isinstance(o, np.integer):
+        return int(o)
+    if isinstance(o, np.floating):
+        return float(o)
+    if isinstance(o, np.bool_):
+        return bool(o)
+    if isinstance(o, np.ndarray):
+        return o.tolist()
+    return str(o)
+
+
 # ------------------------------------------------------------------ workers
 def _child(machine, seed, tier, idxs, wfd, t_end, run_timeout):
     """Child process: run the indices assigned, stream results as JSON."""
@@ -88,7 +102,14 @@ def _child(machine, seed, tier, idxs, wfd, t_end, run_timeout):
             res.pop('tape', None)
         if i % 97 == 5 or i < 3:
             res['sample'] = case
-        w.write(json.dumps(res) + '\n')
+        try:
+            line = json.dumps(res, default=_jd)
+        except Exception:      # noqa
+            traceback.print_exc()
+            line = json.dumps({'index': i, 'violation': None,
+                               'error': 'result not serialisable: ' +
+                               traceback.format_exc(limit=3)})
+        w.write(line + '\n')
         w.flush()
     w.write('{"done": true}\n')
     w.flush()
@@ -97,7 +118,7 @@ def _child(machine, seed, tier, idxs, wfd, t_end, run_timeout):
 
 
 def run_batch(machine, seed, tier, nruns, budget_s, nproc, run_timeout=120,
-              stop_on_violation=True, log=print):
+              stop_on_violation=400, log=print):
     """Run `nruns` simulated runs (indices 0..nruns-1) on `nproc` processes.
 
     Static round-robin assignment keeps the set of runs a function of
@@ -146,9 +167,8 @@ def run_batch(machine, seed, tier, nruns, budget_s, nproc, run_timeout=120,
                     continue
                 results.append(msg)
                 if msg.get('violation') and stop_on_violation:
-                    nsig = len({r['violation']['signature'] for r in results
-                                if r.get('violation')})
-                    if nsig >= 3:
+                    nv = sum(1 for r in results if r.get('violation'))
+                    if nv >= stop_on_violation:
                         stop = True
         if now > t_end + run_timeout + 5:
             errors.append('batch overran its budget; killing workers')
@@ -299,6 +319,9 @@ def match_known(entry, violation, case):
         return False
     kinds = [o.get('op') if isinstance(o, dict) else o[0]
              for o in case.get('ops', [])]
+    if 'quantity_in' in m and violation.get('quantity') not in \
+            m['quantity_in']:
+        return False
     if 'ops_subseq' in m and not _subseq(m['ops_subseq'], kinds):
         return False
     if 'ops_exclude' in m and any(k in kinds for k in m['ops_exclude']):
@@ -418,12 +441,22 @@ def check(machine, tier, seed, log=print):
     known = load_known(machine.pid)
     outdir = os.path.join(VERIF, 'out', machine.pid)
     lines, nviol, known_hit = [], 0, {}
-    seen = set()
+    groups = {}
     for r in results:
-        v = r.get('violation')
-        if not v or v['signature'] in seen or len(seen) >= 4:
-            continue
-        seen.add(v['signature'])
+        if r.get('violation'):
+            groups.setdefault(r['violation']['signature'], []).append(r)
+    picks = []
+    for sig, rs in groups.items():
+        # members that no known finding explains (judged on the raw case)
+        # come first, so that a different violation with the same signature
+        # is not hidden behind a known one
+        unknown = [r for r in rs if not any(
+            match_known(e, r['violation'], r['case']) for e in known)]
+        picks += unknown[:2] if unknown else rs[:1]
+        log(f"  {len(rs)} run(s) with signature {sig} "
+            f"({len(unknown)} not explained by a known finding)")
+    for r in picks[:8]:
+        v = r['violation']
         log(f"  violation candidate run {r['index']}: {v['signature']}: "
             f"{v['detail'][:300]}")
         case, tape, strict = minimise(machine, r['case'], r['seed'],
